@@ -345,10 +345,40 @@ func (a *Analysis) root(v ssa.Value) (bool, string) {
 			}
 			return false, ""
 		}
-		// library call: results are assumed newly allocated (strings.*, regexp, fuzzy.Find, fmt)
+		// library call: the result is newly allocated unless the callee can hand
+		// back memory reachable from one of its pointer-like operands (a
+		// sync.Pool, a container, a cache held in a package-level variable...).
+		// Callees documented to return fresh values whatever they are given are
+		// listed in freshLibrary.
+		if !pointerLike(x.Type()) || freshLibrary(name) {
+			return false, ""
+		}
+		ops := append([]ssa.Value{}, x.Common().Args...)
+		if x.Common().IsInvoke() {
+			ops = append(ops, x.Common().Value)
+		}
+		for _, o := range ops {
+			if !pointerLike(o.Type()) {
+				continue
+			}
+			if s, w := a.Root(o); s {
+				return true, "returned by library call " + name + " on shared operand (" + w + ")"
+			}
+		}
 		return false, ""
 	}
 	return true, fmt.Sprintf("unclassified value %T", v)
+}
+
+// freshLibrary lists library callees whose pointer-like results are always
+// newly allocated, independent of where their operands live.
+func freshLibrary(name string) bool {
+	for _, p := range []string{"strings.", "(*regexp.Regexp).", "regexp.", "fmt.", "strconv.", "unicode.", "sort.", "errors.", "path/filepath.", "os.", "(*strings.Builder).", "encoding/json.Marshal", "time.", "(time."} {
+		if strings.HasPrefix(name, p) {
+			return true
+		}
+	}
+	return false
 }
 
 var sorters = map[string]bool{
